@@ -502,7 +502,8 @@ impl Job for TextJob {
                     out.probe("scope_ids_actually_skipped");
                 }
                 // second instantiation: same outcomes, same bytes
-                if r.ops.len() >= 5 {
+                // (a program that reads the clock or draws random numbers legitimately differs between runs)
+                if r.ops.len() >= 5 && r.counters.unix_reads == 0 && r.counters.rng_words == 0 && r.counters.rng_new == 0 && r.counters.mono_reads == 0 {
                     let seg = |a: usize, b: usize| -> &[u8] {
                         let s = if a == 0 { 0 } else { r.ops[a - 1].out_len };
                         &r.out[s.min(r.out.len())..r.ops[b].out_len.min(r.out.len())]
